@@ -527,6 +527,21 @@ class DestHandler:
         self._fsm_advancement_after_packets_were_sent()
         pdu_holder = PduHolder(packet)
         if (
+            packet is not None
+            and self.transmission_mode == TransmissionMode.ACKNOWLEDGED
+            and pdu_holder.pdu_type == PduType.FILE_DIRECTIVE
+            and pdu_holder.pdu_directive_type == DirectiveType.EOF_PDU
+            and self.states.step
+            in [
+                TransactionStep.WAITING_FOR_MISSING_DATA,
+                TransactionStep.WAITING_FOR_FINISHED_ACK,
+            ]
+        ):
+            # CFDP 4.7.2: Every received EOF PDU must be acknowledged. The sender re-sends the
+            # EOF PDU if the ACK (EOF) PDU was lost, so acknowledge it again.
+            self._prepare_eof_ack_packet()
+            return
+        if (
             self.states.step
             in [
                 TransactionStep.RECEIVING_FILE_DATA,
